@@ -21,6 +21,9 @@ Inductive ginsn :=
 | GStore (b : nat) (k : Z) (sz : Z) (src : option nat) (* a store of sz bytes to [b+k]; src = the
                                               64-bit register stored by a plain mov, if any *)
 | GStoreNS (addr : N)                      (* a store whose address uses an index register *)
+| GStoreIdx (b i : nat) (sc k sz : Z)      (* a store of sz bytes to [b + i*sc + k] *)
+| GConst (d : nat) (c : Z)                 (* mov d, imm  /  xor d,d   (zero-extended constant) *)
+| GXchg (a b : nat)                        (* xchg a, b  (64-bit registers) *)
 | GClob (dsts srcs : N)                    (* registers dsts get new values computed from srcs *)
 | GCall (f : positive)
 | GStd | GCld | GCtl                       (* std, cld, ldmxcsr/fldcw/... *)
@@ -35,8 +38,13 @@ Inductive vinsn :=
 | VCall (f : positive)
 | VUnknown.
 
+(* TJcmp: `cmp r, k` immediately followed by a conditional jump that is TAKEN iff (r rl k), the
+   comparison being signed (sg) or unsigned, on 64 (w64) or 32 bits *)
+Inductive rel := RLt | RLe | RGt | RGe.
 Inductive term :=
-| TJmp (t : positive) | TJcc (t f : positive) | TRet
+| TJmp (t : positive) | TJcc (t f : positive)
+| TJcmp (sg w64 : bool) (rl : rel) (r : nat) (k : Z) (t f : positive)
+| TRet
 | TTail (f : positive) | TTailInd | THalt | TBad.
 
 Record block := { bg : list ginsn; bv : list vinsn; bt : term }.
@@ -48,11 +56,14 @@ Arguments GAlign d id%positive m.
 Arguments GStore b (k sz)%Z src.
 Arguments GStoreNS addr%N.
 Arguments GClob (dsts srcs)%N.
+Arguments GStoreIdx b i (sc k sz)%Z.
+Arguments GConst d c%Z.
 Arguments GCall f%positive.
 Arguments VW merge w regs%N.
 Arguments VCall f%positive.
 Arguments TJmp t%positive.
 Arguments TJcc (t f)%positive.
+Arguments TJcmp sg w64 rl r k%Z (t f)%positive.
 Arguments TTail f%positive.
 (* shorthand used by the generated files *)
 Definition Bk (i : positive) (g : list ginsn) (v : list vinsn) (t : term) : positive * block :=
@@ -81,29 +92,45 @@ Module PM := PositiveMap.
 Definition cfg_of (f : func) : PM.t block :=
   fold_left (fun m ib => PM.add (fst ib) (snd ib) m) (fblocks f) (PM.empty block).
 
-Definition succs (t : term) : list positive :=
-  match t with TJmp a => [a] | TJcc a b => [a; b] | _ => [] end.
+(* successors, tagged: true = the branch is taken / the only successor, false = fall-through *)
+Definition succs (t : term) : list (bool * positive) :=
+  match t with
+  | TJmp a => [(true, a)]
+  | TJcc a b => [(true, a); (false, b)]
+  | TJcmp _ _ _ _ _ a b => [(true, a); (false, b)]
+  | _ => []
+  end.
+
+Definition WIDEN_AFTER : nat := 6.
 
 Section Solver.
   Variable A : Type.
   Variable tfb : block -> A -> option A.       (* transfer of a block body *)
+  Variable refine : term -> bool -> A -> A.    (* what an edge adds to the state at the end of the block *)
   Variable join : A -> A -> A.
+  Variable widen : A -> A -> A.                (* used instead of join once a block was updated often *)
   Variable leq : A -> A -> bool.
 
-  Fixpoint propagate (out : A) (ts : list positive) (inv : PM.t A) (wl : list positive)
-    : PM.t A * list positive :=
+  Fixpoint propagate (tm : term) (out : A) (ts : list (bool * positive)) (inv : PM.t A) (cnt : PM.t nat)
+           (wl : list positive) : PM.t A * PM.t nat * list positive :=
     match ts with
-    | [] => (inv, wl)
-    | t :: ts' =>
+    | [] => (inv, cnt, wl)
+    | (e, t) :: ts' =>
+      let o := refine tm e out in
       match PM.find t inv with
-      | None => propagate out ts' (PM.add t out inv) (t :: wl)
-      | Some old => if leq out old then propagate out ts' inv wl
-                    else propagate out ts' (PM.add t (join old out) inv) (t :: wl)
+      | None => propagate tm out ts' (PM.add t o inv) cnt (t :: wl)
+      | Some old =>
+        if leq o old then propagate tm out ts' inv cnt wl
+        else let c := match PM.find t cnt with Some c => c | None => O end in
+             let nw := if Nat.ltb c WIDEN_AFTER then join old o else widen old o in
+             propagate tm out ts' (PM.add t nw inv) (PM.add t (S c) cnt) (t :: wl)
       end
     end.
 
-  (* Kildall worklist iteration; None = out of fuel or a transfer failed *)
-  Fixpoint solve (fuel : nat) (cfg : PM.t block) (inv : PM.t A) (wl : list positive) : option (PM.t A) :=
+  (* Kildall worklist iteration; None = out of fuel or a transfer failed.  NOT trusted: its result is
+     only a candidate invariant for `verify`. *)
+  Fixpoint solve (fuel : nat) (cfg : PM.t block) (inv : PM.t A) (cnt : PM.t nat) (wl : list positive)
+    : option (PM.t A) :=
     match wl with
     | [] => Some inv
     | b :: wl' =>
@@ -113,7 +140,8 @@ Section Solver.
         match PM.find b cfg, PM.find b inv with
         | Some blk, Some a =>
           match tfb blk a with
-          | Some out => let '(inv', wl'') := propagate out (succs (bt blk)) inv wl' in solve fuel' cfg inv' wl''
+          | Some out => let '(inv', cnt', wl'') := propagate (bt blk) out (succs (bt blk)) inv cnt wl' in
+                        solve fuel' cfg inv' cnt' wl''
           | None => None
           end
         | _, _ => None
@@ -132,7 +160,9 @@ Section Solver.
       | None => false
       | Some out =>
         term_ok (bt (snd ib)) out &&
-        forallb (fun t => match PM.find t inv with Some a' => leq out a' | None => false end)
+        forallb (fun et => match PM.find (snd et) inv with
+                           | Some a' => leq (refine (bt (snd ib)) (fst et) out) a'
+                           | None => false end)
                 (succs (bt (snd ib)))
       end
     end.
@@ -146,7 +176,7 @@ Section Solver.
 
   Definition analyse (f : func) (init : A) : bool :=
     let cfg := cfg_of f in
-    match solve (S (length (fblocks f)) * 200) cfg (PM.add 1%positive init (PM.empty A)) [1%positive] with
+    match solve (S (length (fblocks f)) * 200) cfg (PM.add 1%positive init (PM.empty A)) (PM.empty nat) [1%positive] with
     | Some inv => verify cfg init inv
     | None => false
     end.
@@ -154,9 +184,18 @@ End Solver.
 
 (* ------------------------------------------------------------------ GPR / stack machine *)
 Inductive base := BInit (r : nat) | BAl (id : positive).
-Inductive aval := Sym (b : base) (k : Z) | Top | STop.
-(* Sym b k : exactly (value of base b) + k.   Top : unknown, not derived from this function's
-   stack pointer.   STop : unknown, possibly derived from the stack pointer. *)
+Inductive aval :=
+| Sym (b : base) (k : Z)
+| SymR (b : base) (lo hi st : Z)
+| Num (lo hi st : Z)
+| Top | STop.
+(* Sym b k : exactly (value of base b) + k.
+   SymR b lo hi st : (value of base b) + off with lo <= off <= hi and st | off - lo.
+   Num lo hi st : a number v (not a frame pointer) with lo <= v <= hi and st | v - lo.
+   Top : unknown, not derived from this function's stack pointer.
+   STop : unknown, possibly derived from the stack pointer. *)
+Definition NUM_MAX : Z := 2147483648.       (* numbers are tracked within [0, 2^31) only *)
+
 
 Record astate := {
   ar : list aval;                          (* 16 GPRs *)
@@ -174,20 +213,61 @@ Definition base_eqb (a b : base) : bool :=
 Definition stackish_base (b : base) : bool :=
   match b with BInit r => Nat.eqb r RSP | BAl _ => true end.
 Definition stackish (v : aval) : bool :=
-  match v with Sym b _ => stackish_base b | Top => false | STop => true end.
+  match v with Sym b _ | SymR b _ _ _ => stackish_base b | Num _ _ _ | Top => false | STop => true end.
 Definition aval_eqb (a b : aval) : bool :=
   match a, b with
   | Sym x k, Sym y j => base_eqb x y && Z.eqb k j
+  | SymR x l h s, SymR y l' h' s' => base_eqb x y && Z.eqb l l' && Z.eqb h h' && Z.eqb s s'
+  | Num l h s, Num l' h' s' => Z.eqb l l' && Z.eqb h h' && Z.eqb s s'
   | Top, Top => true | STop, STop => true | _, _ => false
+  end.
+(* st | x, decidably; st = 0 means x = 0 *)
+Definition divides (st x : Z) : bool := if st =? 0 then x =? 0 else x mod st =? 0.
+(* range view of a value: (base or none, lo, hi, stride) *)
+Definition rng (v : aval) : option (option base * Z * Z * Z) :=
+  match v with
+  | Sym b k => Some (Some b, k, k, 0)
+  | SymR b lo hi st => Some (Some b, lo, hi, st)
+  | Num lo hi st => Some (None, lo, hi, st)
+  | _ => None
+  end.
+Definition mk (ob : option base) (lo hi st : Z) : aval :=
+  match ob with
+  | Some b => if lo =? hi then Sym b lo else SymR b lo hi st
+  | None => if (0 <=? lo) && (hi <? NUM_MAX) then Num lo hi st else Top
+  end.
+Definition obase_eqb (a b : option base) : bool :=
+  match a, b with Some x, Some y => base_eqb x y | None, None => true | _, _ => false end.
+(* range ra is included in range rb *)
+Definition rng_leq (ra rb : option base * Z * Z * Z) : bool :=
+  match ra, rb with
+  | (oa, la, ha, sa), (ob, lb, hb, sb) =>
+    obase_eqb oa ob && (lb <=? la) && (ha <=? hb) && divides sb (la - lb) && divides sb sa
   end.
 Definition aval_leq (a b : aval) : bool :=
   match b with
   | STop => true
   | Top => negb (stackish a)
   | Sym _ _ => aval_eqb a b
+  | SymR _ _ _ _ | Num _ _ _ =>
+    match rng a, rng b with Some ra, Some rb => rng_leq ra rb | _, _ => false end
   end.
-Definition aval_join (a b : aval) : aval :=
+(* equal or unknown *)
+Definition aval_ejoin (a b : aval) : aval :=
   if aval_eqb a b then a else if stackish a || stackish b then STop else Top.
+(* widening: a value that still changes after several rounds is given up *)
+Definition aval_wjoin (a b : aval) : aval :=
+  if aval_leq b a then a else aval_ejoin a b.
+(* join: hull of the two ranges when they have the same base *)
+Definition aval_join (a b : aval) : aval :=
+  if aval_eqb a b then a else
+  match rng a, rng b with
+  | Some (oa, la, ha, sa), Some (ob, lb, hb, sb) =>
+    if obase_eqb oa ob
+    then mk oa (Z.min la lb) (Z.max ha hb) (Z.gcd (Z.gcd sa sb) (Z.abs (la - lb)))
+    else aval_ejoin a b
+  | _, _ => aval_ejoin a b
+  end.
 
 Definition getr (s : astate) (r : nat) : aval := nth r (ar s) STop.
 Fixpoint upd {T} (l : list T) (n : nat) (v : T) : list T :=
@@ -251,7 +331,7 @@ Definition below_frame (s : astate) (b : base) (k sz : Z) : bool :=
   match upper s b k with Some u => u + sz <=? 0 | None => false end.
 
 Definition mentions (id : positive) (v : aval) : bool :=
-  match v with Sym (BAl i) _ => Pos.eqb i id | _ => false end.
+  match v with Sym (BAl i) _ | SymR (BAl i) _ _ _ => Pos.eqb i id | _ => false end.
 Definition forget_al (s : astate) (id : positive) : astate :=
   {| ar := map (fun v => if mentions id v then STop else v) (ar s);
      asl := filter (fun e => match e with (b, _, v) =>
@@ -312,12 +392,19 @@ Section GTransfer.
       end
     | GMov d s' => Some (setr s d (getr s s'))
     | GLea d s' k =>
-      Some (setr s d (match getr s s' with Sym b j => Sym b (j + k) | v => v end))
+      Some (setr s d (match getr s s' with
+                      | Sym b j => Sym b (j + k)
+                      | SymR b lo hi st => SymR b (lo + k) (hi + k) st
+                      | Num lo hi st => mk None (lo + k) (hi + k) st
+                      | v => v end))
+    | GConst d c => Some (setr s d (mk None c c 0))
+    | GXchg a b => Some (setr (setr s a (getr s b)) b (getr s a))
     | GLoad d b k =>
       match getr s b with
       | Sym bb j => if stackish_base bb then Some (setr s d (load_val s bb (j + k)))
                     else Some (setr s d Top)
-      | Top => Some (setr s d Top)
+      | SymR bb _ _ _ => Some (setr s d (if stackish_base bb then STop else Top))
+      | Num _ _ _ | Top => Some (setr s d Top)
       | STop => Some (setr s d STop)
       end
     | GAlign d id m =>
@@ -331,7 +418,8 @@ Section GTransfer.
           | None => Some (setr s1 d STop)
           end
         else Some (setr s1 d Top)
-      | Top => Some (setr s1 d Top)
+      | SymR b _ _ _ => Some (setr s1 d (if stackish_base b then STop else Top))
+      | Num _ _ _ | Top => Some (setr s1 d Top)
       | STop => Some (setr s1 d STop)
       end
     | GStore b k sz src =>
@@ -346,8 +434,23 @@ Section GTransfer.
             end
           else None
         else Some s
-      | Top => Some s
+      | SymR bb lo hi _ =>
+        if stackish_base bb then
+          if (0 <? sz) && (lo <=? hi) && below_frame s bb (lo + k) (hi - lo + sz)
+          then Some (havoc_range s bb (lo + k) (hi - lo + sz)) else None
+        else Some s
+      | Num _ _ _ | Top => Some s
       | STop => None
+      end
+    | GStoreIdx b i sc k sz =>
+      match rng (getr s b), getr s i with
+      | Some (Some bb, blo, bhi, _), Num ilo ihi _ =>
+        if stackish_base bb then
+          if (0 <? sz) && (0 <=? sc) && (blo <=? bhi) && (ilo <=? ihi) &&
+             below_frame s bb (blo + ilo * sc + k) (bhi - blo + (ihi - ilo) * sc + sz)
+          then Some (havoc_range s bb (blo + ilo * sc + k) (bhi - blo + (ihi - ilo) * sc + sz)) else None
+        else Some s
+      | _, _ => if stackish (getr s b) || stackish (getr s i) then None else Some s
       end
     | GStoreNS m => if any_stackish s m then None else Some s
     | GClob dsts srcs => Some (clob s dsts srcs)
@@ -395,6 +498,48 @@ Definition g_join (a b : astate) : astate :=
                | None => acc end) [] (abd a);
      adf := adf a && adf b |}.
 
+Definition g_wjoin (a b : astate) : astate :=
+  {| ar := map (fun r => aval_wjoin (getr a r) (getr b r)) regs16;
+     asl := fold_right (fun e acc => match e with (bb, k, v) =>
+               match lookup_slot (asl b) bb k with
+               | Some vb => (bb, k, aval_wjoin v vb) :: acc
+               | None => acc end end) [] (asl a);
+     abd := abd (g_join a b);
+     adf := adf a && adf b |}.
+
+(* knowing value <= bound *)
+Definition ub_refine (v : aval) (bound : Z) : aval :=
+  match v with
+  | Num lo hi st =>
+    if (0 <=? lo) && (hi <? NUM_MAX) && (0 <? st) then
+      let h := Z.min hi bound in
+      if h <? lo then v else Num lo (lo + st * ((h - lo) / st)) st
+    else v
+  | _ => v
+  end.
+
+(* the upper bound on register r that edge e of terminator t establishes, if any *)
+Definition edge_bound (t : term) (e : bool) : option (nat * Z) :=
+  match t with
+  | TJcmp _ _ rl r k _ _ =>
+    if (0 <=? k) && (k <? NUM_MAX) then
+      match rl, e with
+      | RLt, true => Some (r, k - 1)
+      | RLe, true => Some (r, k)
+      | RGe, false => Some (r, k - 1)
+      | RGt, false => Some (r, k)
+      | _, _ => None
+      end
+    else None
+  | _ => None
+  end.
+
+Definition g_refine (t : term) (e : bool) (s : astate) : astate :=
+  match edge_bound t e with
+  | Some (r, b) => setr s r (ub_refine (getr s r) b)
+  | None => s
+  end.
+
 Definition g_init : astate :=
   {| ar := map (fun r => Sym (BInit r) 0) regs16; asl := []; abd := []; adf := true |}.
 
@@ -410,7 +555,7 @@ Definition subset (a b : N) : bool := N.eqb (N.land a b) a.
 
 Definition g_term_ok (claims : positive -> claim) (pres : N) (t : term) (s : astate) : bool :=
   match t with
-  | TJmp _ | TJcc _ _ | THalt => true
+  | TJmp _ | TJcc _ _ | TJcmp _ _ _ _ _ _ _ | THalt => true
   | TRet => restored pres s
   | TTail f => subset pres (cl_pres (claims f)) && restored pres s
   | TTailInd => subset pres ABI_SAVED && restored pres s  (* the target keeps the SysV callee-saved set *)
@@ -419,7 +564,7 @@ Definition g_term_ok (claims : positive -> claim) (pres : N) (t : term) (s : ast
 
 (* the function keeps its claim (on registers, rsp, DF, control words, frame) on every path *)
 Definition check_gclaim (claims : positive -> claim) (f : func) : bool :=
-  analyse astate (fun b => gtf_list claims (bg b)) g_join g_leq
+  analyse astate (fun b => gtf_list claims (bg b)) g_refine g_join g_wjoin g_leq
           (g_term_ok claims (cl_pres (claims (fid f)))) f g_init.
 
 (* C19 for an entry point: the claim covers the callee-saved registers of the SysV ABI *)
@@ -469,7 +614,7 @@ Definition v_within (vd : list nat) (s : vstate) : bool :=
 
 Definition v_term_ok (claims : positive -> claim) (vd : list nat) (t : term) (s : vstate) : bool :=
   match t with
-  | TJmp _ | TJcc _ _ | THalt => true
+  | TJmp _ | TJcc _ _ | TJcmp _ _ _ _ _ _ _ | THalt => true
   | TRet => v_within vd s
   | TTail f => v_within vd (map (fun r => Nat.max (getv s r) (nth r (cl_vd (claims f)) 3%nat)) regs32)
   | TTailInd => v_within vd s   (* the target is one of the checked family symbols of the same operation *)
@@ -477,7 +622,7 @@ Definition v_term_ok (claims : positive -> claim) (vd : list nat) (t : term) (s 
   end.
 
 Definition check_vclaim (claims : positive -> claim) (f : func) : bool :=
-  analyse vstate (fun b => vtf_list claims (bv b)) v_join v_leq
+  analyse vstate (fun b => vtf_list claims (bv b)) (fun _ _ s => s) v_join v_join v_leq
           (v_term_ok claims (cl_vd (claims (fid f)))) f v_init.
 
 Definition all_clean (vd : list nat) : bool := forallb (fun r => Nat.eqb (nth r vd 3%nat) 0) regs32.
